@@ -30,6 +30,10 @@ impl<'a> Paseto<'a, V2, Local> {
         //get footer
 
         let decoded_payload = Self::parse_raw_token(token, footer, &V2::default(), &Local::default())?;
+        //the decoded payload must at least hold the nonce and the tag
+        if decoded_payload.len() < 40 {
+            return Err(PasetoError::IncorrectSize);
+        }
         let (nonce, ciphertext) = decoded_payload.split_at(24);
 
         //pack preauth
